@@ -603,7 +603,7 @@ def cases(tier):
                                     for parts in pls:
                                         base = {"dir": d, "proto": proto, "framing": fr, "L": L, "S": S, "store": store, "addon": addon, "parts": parts}
                                         out.append(base)
-                                        variants = tier != "quick" or (addon in ("none", "buffer") and parts[0] in (1, n - 1))
+                                        variants = tier != "quick" or (addon in ("none", "buffer") and bool(parts) and parts[0] in (1, n - 1))
                                         if proto == "h1" and len(parts) >= 2 and variants:
                                             out.append(dict(base, coalesce=True))
                                         if proto == "h1" and d == "req" and addon in ("none", "true") and len(parts) <= 2 and variants:
